@@ -58,7 +58,7 @@ def gen_solver(rng, name, steps, dt, tight=None, buggify=True, contacts=False):
         tol = float(rng.choice([1e-3, 1e-4, 1e-6]))
         spec["kwargs"] = {"method": str(rng.choice(["Radau", "BDF"])) if buggify else "Radau", "rtol": tol, "atol": tol * 1e-3}
         spec["options"] = {}
-    elif name == "BackwardEuler" and buggify and rng.random() < 0.15:
+    elif name == "BackwardEuler" and buggify and not contacts and steps <= 40 and rng.random() < 0.15:
         spec["options"]["numerical_jacobian_method"] = str(rng.choice(["2-point", "3-point"]))
     return spec
 
